@@ -1264,6 +1264,51 @@ theorem C10_index_equals_eager_instance_witness (ops : FloatOps Nat) (lex : LexC
   · rw [h4]; rfl
   · rw [← h5, h4]; rfl
 
+theorem Inst.lzm : ∀ r ∈ mRecs, LazySideAny mEnv r := by
+  intro r hr
+  simp only [mRecs, List.mem_cons, List.not_mem_nil, or_false] at hr
+  rcases hr with rfl | rfl
+  · show LazySide wRecA
+    refine ⟨by decide, by decide, by decide, by decide, by decide, ?_, Inst.small_of _ (by decide), Inst.small_of _ (by decide)⟩
+    intro p hp
+    simp only [wRecA, List.mem_cons, List.not_mem_nil, or_false] at hp
+    subst hp
+    exact Inst.small_of _ (by decide)
+  · refine ⟨by decide, by decide, Inst.small_of _ (by decide), Inst.small_of _ (by decide), ?_⟩
+    intro c hc ed he a ha
+    simp only [mCRec, List.mem_cons, List.not_mem_nil, or_false] at hc
+    rcases hc with rfl | rfl
+    · have h1 : mEnv.dict.entity? mPartA.name = some { name := "A", attrs := [wAttrI], ancestors := ["A"] } := by decide
+      rw [h1] at he; cases he
+      have hown : EntityD.ownAttrs { name := "A", attrs := [wAttrI], ancestors := ["A"] } = [wAttrI] := by decide
+      rw [hown] at ha
+      simp only [List.mem_cons, List.not_mem_nil, or_false] at ha
+      subst ha; decide
+    · have h1 : mEnv.dict.entity? mPartC.name = some { name := "C", attrs := [wAttrR], ancestors := ["C"] } := by decide
+      rw [h1] at he; cases he
+      have hown : EntityD.ownAttrs { name := "C", attrs := [wAttrR], ancestors := ["C"] } = [wAttrR] := by decide
+      rw [hown] at ha
+      simp only [List.mem_cons, List.not_mem_nil, or_false] at ha
+      subst ha; decide
+
+/-- the hypotheses of `C10_index_equals_eager_mixed_partial` are satisfiable, every one discharged: the C01 owner's witness file
+    `⏎#1=A(5);⏎#2=(A(7)C(#1));⏎ENDSEC;⏎END-ISO-10303-21;⏎` (`C01_mixed_hypotheses_witness`) — the lazy index has `#1` under `A` without
+    references and the externally mapped `#2` under the empty keyword with the reference to `#1` that its part `C` holds -/
+theorem C10_index_equals_eager_mixed_instance_witness :
+    ∃ res es,
+      readDataSection dblOps Generated.rwLexCfg Generated.rwCfg mDict false false
+        ([10] ++ renderItems (mRecs.map (AnyRec.item mDict)) (RLemmas.endsec [] ([10] ++ (endIso ++ 59 :: [10])))) = .ok res ∧
+      scan (cs ([10] ++ renderItems (mRecs.map (AnyRec.item mDict)) (RLemmas.endsec [] ([10] ++ (endIso ++ 59 :: [10]))))) = .ok (es, true) ∧
+      es = [⟨1, "A".toList, []⟩, ⟨2, [], [1]⟩] ∧ res.created = 2 := by
+  obtain ⟨hnd, hrec⟩ := C01_mixed_hypotheses_witness
+  obtain ⟨res, es, h1, h2, h3, _, h5⟩ := C10_index_equals_eager_mixed_partial dblOps Generated.rwLexCfg Generated.rwCfg mDict false
+    (by decide) (by decide) (by decide) (by decide) (by decide) mRecs [10] [] [10] [10]
+    (Seps.blanks _ (by decide)) (by decide) (Seps.blanks _ (by decide)) hnd hrec C10_source_comments_raw Inst.lzm
+    (Inst.small_of _ (by decide)) (Inst.small_of _ (by decide))
+  refine ⟨res, es, h1, h2, ?_, ?_⟩
+  · rw [h3]; decide
+  · rw [← h5, h3]; rfl
+
 /-- the ids the eager model creates from a data section (dictionary `exDict` of the C01 owner: one entity `A(i : INTEGER, l : LIST OF
     INTEGER)`), with the count `ReadData1` reports -/
 def eagerIds (data : String) : Option (List Int × Nat) :=
